@@ -176,8 +176,10 @@ def build_group(g, gen, wd, extra_defs=()):
     cmd = ["goto-cc", "--function", g.entry, "-o", a] + cc_args(gen, list(g.defs) + list(extra_defs)) + srcs
     r = run(cmd, timeout=600, mem_gb=8)
     if r["rc"] != 0:
-        raise Undecided("goto-cc failed for %s:\n%s" % (g.name, (r["err"] + r["out"])[-3000:]))
-    cmd = ["goto-instrument", "--dfcc", g.entry]
+        txt = r["err"] + r["out"]
+        errs = [l for l in txt.splitlines() if "error" in l.lower()]
+        raise Undecided("goto-cc failed for %s: %s" % (g.name, " | ".join(errs[:4]) or txt[-1500:]))
+    cmd = ["goto-instrument", "--no-malloc-may-fail", "--dfcc", g.entry]
     for f in g.enforce:
         cmd += ["--enforce-contract", f]
     for f in g.replace:
@@ -535,7 +537,7 @@ def run_check(pid, tier, jobs=None, only=None, keep=False):
                            reach_points=len(reach), contract_obligations=len([o for o in counted if o["kind"] == "contract"]),
                            safety_obligations=len([o for o in counted if o["kind"] != "contract"]),
                            samples=[o["name"] + ": " + o["descr"][:100] for o in ([o for o in core if o["kind"] == "contract"] + core)[:3]])
-            if internal_failed and not failed:
+            if internal_failed and (not failed or any("unwind" in o["name"] for o in internal_failed)):
                 undecided.append((g, "internal obligation failed: " + "; ".join(o["name"] + " " + o["descr"][:80] for o in internal_failed[:4])))
                 summary["status"] = "undecided"
                 ev_groups.append(summary)
@@ -582,6 +584,12 @@ def run_check(pid, tier, jobs=None, only=None, keep=False):
         nviol = 0
         for g, defs, r, failed in violations:
             nviol += 1
+            def prio(x):
+                if re.match(r"^C\d\d:", x["descr"]): return 0
+                if "postcondition" in x["name"]: return 1
+                if x["kind"] == "safety": return 2
+                return 3
+            failed = sorted(failed, key=prio)
             o = failed[0]
             rdir = os.path.join(VERIF, "replay", pid)
             os.makedirs(rdir, exist_ok=True)
